@@ -95,8 +95,8 @@ def emit(sj, header='<hfsm2/machine.hpp>'):
             ar = set(anc(rn['id']))
             lca = next(i for i in ax if i in ar)
             between = [i for i in anc(rn['id'])[1:] if i != lca and i not in ax]
-            # only orthogonal regions between the common ancestor and the region: with a composite region in between the unchanged library loses the
-            # later request (known finding of C02, repro/C02_batch_into_active_orthogonal.cpp), which says nothing about identifiers
+            # only orthogonal regions between the common ancestor and the region: with a composite region in between the library used to lose the
+            # later request (C02 defect repaired by 06ee120, repro/C02_batch_into_active_orthogonal.cpp), which says nothing about identifiers
             if nodes[lca]['kind'] == 'C' and x not in shp.subtree(nodes, rn['id']) and all(nodes[i]['kind'] == 'O' for i in between): ccand.append((x, rn['id']))
     # curated structures only: they do not depend on the seed, so neither does the verdict of this probe
     fixed_shape = sj['name'].startswith('id_')
